@@ -3,7 +3,7 @@ ID = "C15"
 LEVEL = "proof"
 TAGS = ("C15",)
 CONTRACT_MODULES = ALL_CONTRACTS
-FUNCTIONS = [P + "handleScriptHook", S + "exitExcludedRegion", S + "_processPendingCommands"]
+FUNCTIONS = [P + "handleScriptHook", S + "exitExcludedRegion", S + "_processPendingCommands"] + [P + "on_event"]
 ASSUMPTIONS = ["A1", "A3", "A4", "A5", "INDUCTION"]
 EXPLANATION = ("handleScriptHook returns (exit sequence, None) exactly when type='gcode', name='afterPrintDone', a job is active and an "
                "episode is open -- the sequence has the exit structure (deferred commands, exit script, G92 E, G0 moves; each once) and "
